@@ -410,12 +410,9 @@ class Gen:
                     ptxt = proof
                     for gi in range(1, (h.lastindex or 0) + 1):
                         ptxt = ptxt.replace("$%d" % gi, h.group(gi))
-                    if after:
-                        pos = body.find("\n", h.end())
-                        pos = len(body) if pos < 0 else pos + 1
-                    else:
-                        pos = body.rfind("\n", 0, h.start()) + 1
-                    body = body[:pos] + "/*@PROOF*/\nproof { " + ptxt + " }\n/*@ENDPROOF*/\n" + body[pos:]
+                    # inline, right at the statement: a statement nested in a one-line block keeps its guard
+                    pos = h.end() if after else h.start()
+                    body = body[:pos] + " proof { " + ptxt + " } " + body[pos:]
                 self.fidelity.append(dict(rule="ledger", file=s.path, line=body_line, fn=key, before=rx, after="%d statement(s) of this shape carry: %s" % (len(hits), proof),
                                           trusted="nothing (ghost bookkeeping)"))
             for gtext in ctr.ghost:
